@@ -32,12 +32,21 @@ pub fn cmd_opts(o: &Opts) -> Result<(), String> {
                 for (h, host) in a["hosts"].as_array().unwrap().iter().enumerate() {
                     let pat = format!("{}{}{}", toks2string(&host[0]), toks2string(piece), toks2string(&host[1]));
                     for (li, lim) in a["limits"].as_array().unwrap().iter().enumerate() {
-                        let lim = lim.as_u64().unwrap() as usize;
+                        // an option combination: 0 = leave the default; dfafirst = set the DFA limit before the size limit
+                        let size = lim["size"].as_u64().unwrap() as usize;
+                        let dfa = lim["dfa"].as_u64().unwrap() as usize;
+                        let dfafirst = lim["dfafirst"].as_bool().unwrap();
                         let p2 = pat.clone();
                         let re = build(move || {
                             let mut b = RegexBuilder::new(&p2);
-                            if lim > 0 {
-                                b.delegate_size_limit(lim);
+                            if dfafirst && dfa > 0 {
+                                b.delegate_dfa_size_limit(dfa);
+                            }
+                            if size > 0 {
+                                b.delegate_size_limit(size);
+                            }
+                            if !dfafirst && dfa > 0 {
+                                b.delegate_dfa_size_limit(dfa);
                             }
                             b.build()
                         });
